@@ -83,28 +83,28 @@ def contracts():
         c.mustfail("implies(pos < ntok(self) and pos >= -ntok(self), result == True)", "always_true")
         out.append(c)
 
-    c = Contract(P + "eol", setup=ctx_setup({"pos": "nat"}), result="int")
-    c.req("pos >= 0")
+    # eol / skip_ws are total over int positions: negative positions wrap around in
+    # peek_token, so the clauses about the kinds of the skipped tokens are stated for pos >= 0
+    c = Contract(P + "eol", setup=ctx_setup({"pos": "int"}), result="int")
     c.ens("pos <= result", "monotone")
     c.ens("result <= max(pos, ntok(self))", "bounded")
-    c.ens("forall(pos, result, lambda k: kind_in(self, k, ('TAB', 'SPACE', 'NEWLINE')))", "skipped_blank")
-    c.ens("forall(pos, result - 1, lambda k: not kind_in(self, k, 'NEWLINE'))", "one_newline")
-    c.ens("(result > pos and kind_in(self, result - 1, 'NEWLINE')) or result >= ntok(self) "
-          "or not kind_in(self, result, ('TAB', 'SPACE', 'NEWLINE'))", "stops")
+    c.ens("implies(pos >= 0, forall(pos, result, lambda k: kind_in(self, k, ('TAB', 'SPACE', 'NEWLINE'))))", "skipped_blank")
+    c.ens("implies(pos >= 0, forall(pos, result - 1, lambda k: not kind_in(self, k, 'NEWLINE')))", "one_newline")
+    c.ens("implies(pos >= 0, (result > pos and kind_in(self, result - 1, 'NEWLINE')) or result >= ntok(self) "
+          "or not kind_in(self, result, ('TAB', 'SPACE', 'NEWLINE')))", "stops")
     c.loop(0, invariant=["old(pos) <= pos and pos <= max(old(pos), ntok(self))",
-                         "forall(old(pos), pos, lambda k: kind_in(self, k, ('TAB', 'SPACE')))"],
+                         "implies(old(pos) >= 0, forall(old(pos), pos, lambda k: kind_in(self, k, ('TAB', 'SPACE'))))"],
            variant="ntok(self) - pos", pure=True)
     c.mustfail("result > pos", "always_advances")
     out.append(c)
 
-    c = Contract(P + "skip_ws", setup=ctx_setup({"pos": "nat", "nl": "bool", "comment": "bool"}), result="int")
-    c.req("pos >= 0")
+    c = Contract(P + "skip_ws", setup=ctx_setup({"pos": "int", "nl": "bool", "comment": "bool"}), result="int")
     c.ens("pos <= result", "monotone")
     c.ens("result <= max(pos, ntok(self))", "bounded")
-    c.ens("forall(pos, result, lambda k: in_ws(self, k, nl, comment))", "skipped_ws")
-    c.ens("result >= ntok(self) or not in_ws(self, result, nl, comment)", "stops")
+    c.ens("implies(pos >= 0, forall(pos, result, lambda k: in_ws(self, k, nl, comment)))", "skipped_ws")
+    c.ens("implies(pos >= 0, result >= ntok(self) or not in_ws(self, result, nl, comment))", "stops")
     c.loop(0, invariant=["old(pos) <= pos and pos <= max(old(pos), ntok(self))",
-                         "forall(old(pos), pos, lambda k: in_ws(self, k, nl, comment))"],
+                         "implies(old(pos) >= 0, forall(old(pos), pos, lambda k: in_ws(self, k, nl, comment)))"],
            variant="ntok(self) - pos", pure=True)
     c.mustfail("result > pos", "always_advances")
     out.append(c)
@@ -128,12 +128,11 @@ def skip_nest_contract():
     """skip_nest(pos): index of the bracket that closes the one at pos (or pos itself when
     the token at pos is not an opening bracket); CParsingError when it is never closed or
     when pos is past the end of the token list"""
-    c = Contract(P + "skip_nest", setup=ctx_setup({"pos": "nat"}), result="int")
-    c.req("pos >= 0")
+    c = Contract(P + "skip_nest", setup=ctx_setup({"pos": "int"}), result="int")
     c.rais("CParsingError")
     c.ens("result >= pos and result < ntok(self)", "monotone_and_in_bounds")
-    c.ens("implies(not kind_in(self, pos, ('LBRACKET', 'LBRACE', 'LPARENTHESIS')), result == pos)", "not_a_bracket")
-    c.ens("implies(kind_in(self, pos, ('LBRACKET', 'LBRACE', 'LPARENTHESIS')), result > pos)", "closing_is_later")
+    c.ens("implies(pos >= 0 and not kind_in(self, pos, ('LBRACKET', 'LBRACE', 'LPARENTHESIS')), result == pos)", "not_a_bracket")
+    c.ens("implies(pos >= 0 and kind_in(self, pos, ('LBRACKET', 'LBRACE', 'LPARENTHESIS')), result > pos)", "closing_is_later")
     c.loop(0, invariant=["i > pos"], variant="ntok(self) - i", pure=True)
     c.mustfail("result == pos", "never_moves")
     return c
